@@ -137,8 +137,9 @@ var fixedZoneLabels = map[string]int{
 }
 
 // documented labels whose zone observes daylight saving time in January
-// (southern hemisphere) or changed rules recently: not decided here.
-var ambiguousZoneLabels = map[string]bool{"-4": true, "+10": true, "+10:30": true, "+11": true, "+12": true, "+12:45": true, "+13": true, "+14": true, "-9:30": true, "CST": true, "UTC": true}
+// (southern hemisphere) or changed rules recently: not decided here. "UTC" is
+// the IANA zone of that name and is decided (time.LoadLocation).
+var ambiguousZoneLabels = map[string]bool{"-4": true, "+10": true, "+10:30": true, "+11": true, "+12": true, "+12:45": true, "+13": true, "+14": true, "-9:30": true, "CST": true}
 
 // house layouts tried before the general date parser (pinned by the
 // repository's tests)
